@@ -33,6 +33,12 @@ var internal405Handler HandlerFunc = func(c *Context) {
 	}
 }
 
+// default handlers chain for not found and method not allowed.
+var (
+	default404Handlers = HandlersChain{internal404Handler}
+	default405Handlers = HandlersChain{internal405Handler}
+)
+
 /*************************************************************
  * starting HTTP serve
  *************************************************************/
@@ -170,19 +176,19 @@ func (r *Router) handleHTTPRequest(ctx *Context) {
 		// append main handler to last
 		handlers = append(route.handlers, route.handler)
 	} else if len(allowed) > 0 { // method not allowed
-		if len(r.noAllowed) == 0 {
-			r.noAllowed = HandlersChain{internal405Handler}
-		}
-
 		// add allowed methods to context
 		ctx.Set(CTXAllowedMethods, allowed)
-		handlers = r.noAllowed
-	} else { // not found route
-		if len(r.noRoute) == 0 {
-			r.noRoute = HandlersChain{internal404Handler}
-		}
 
+		// Notice: don't write router fields here, requests are handled concurrently.
+		handlers = r.noAllowed
+		if len(handlers) == 0 {
+			handlers = default405Handlers
+		}
+	} else { // not found route
 		handlers = r.noRoute
+		if len(handlers) == 0 {
+			handlers = default404Handlers
+		}
 	}
 
 	// has global middleware handlers
